@@ -433,7 +433,6 @@ func c16CoordBounds(c *fw.Ctx, idx int) {
 		c.Fail("clone-not-equal", "Bounds.Clone() differs from the original")
 		return
 	}
-	stride := layout.Stride()
 	for s := 0; s < 4; s++ {
 		target, otherB, tn := bc, b, "the clone"
 		if r.Bool() {
@@ -444,10 +443,17 @@ func c16CoordBounds(c *fw.Ctx, idx int) {
 		if c.Guard("panic", func() {
 			switch r.Intn(3) {
 			case 0:
-				g2 := gen.Shape(r, kind, layout, gen.FiniteClass(r), gen.ShapeOpts{})
+				// a geometry of the same or of a wider layout (the box then widens:
+				// minima and maxima are re-laid-out or appended to in place)
+				l2 := layout
+				if r.Bool() {
+					l2 = gen.StdLayouts[r.Intn(4)]
+				}
+				g2 := gen.Shape(r, kind, l2, gen.FiniteClass(r), gen.ShapeOpts{NoEmptyPoint: true})
 				target.Extend(g2.BuildFlat())
 				what = "Extend"
 			case 1:
+				stride := target.Layout().Stride() + r.Intn(3)*r.Intn(2)
 				args := make([]float64, 2*stride)
 				for i := range args {
 					args[i] = float64(r.Range(-100, 100))
@@ -455,8 +461,8 @@ func c16CoordBounds(c *fw.Ctx, idx int) {
 				target.Set(args...)
 				what = "Set"
 			default:
-				if stride > 0 {
-					target.SetCoords(geom.Coord(gen.Coord(r, stride, gen.SmallInt)), geom.Coord(gen.Coord(r, stride, gen.SmallInt)))
+				if ts := target.Layout().Stride(); ts > 0 {
+					target.SetCoords(geom.Coord(gen.Coord(r, ts, gen.SmallInt)), geom.Coord(gen.Coord(r, ts, gen.SmallInt)))
 					what = "SetCoords"
 				}
 			}
